@@ -6,7 +6,7 @@ class Engine(DbEngine):
     prop = 'C11'
     profiles = ('debug',)
     weights = {'new': 3, 'addr': 5, 'delete': 8, 'resubmit': 5, 'remove': 0.5, 'reopen': 0.5, 'rebuild': 0.5, 'qown': 0.5}
-    aspects = {'addrs.find', 'stats.del', 'addrs.asof', 'store.result', 'ids.del', 'rebuild-preserves', 'reopen-preserves', 'ids.has'}
+    aspects = {'addrs.find', 'stats.del', 'addrs.asof', 'store.result', 'store.errclass', 'ids.del', 'rebuild-preserves', 'reopen-preserves', 'ids.has'}
     quick = (200, 35)
     thorough = (5000, 80)
     rule = '1-4 deletion requests per id/address in every arrival order relative to each other and to the events they cover (before, after, resubmission), continuations with reopen/rebuild. oracle: store results (deleted vs accepted) and markers with their times equal the abstract store, whose deletion times are monotone by theorem. non-trivial = history with >= 2 stores'
